@@ -471,18 +471,19 @@ func removeTombstones(fn string) ([]*zoekt.Repository, error) {
 		return nil, nil
 	}
 
-	defer func() {
-		paths, err := index.IndexFilePaths(fn)
-		if err != nil {
-			return
-		}
+	err = runMerge()
+	if err != nil {
+		// Nothing replaced the compound shard, so it has to stay: it still holds
+		// the repositories that are not tombstoned.
+		return nil, fmt.Errorf("runMerge: %s", err)
+	}
+
+	// The merge wrote a new compound shard without the tombstoned repositories.
+	// Remove what is left of the old one.
+	if paths, err := index.IndexFilePaths(fn); err == nil {
 		for _, path := range paths {
 			os.Remove(path)
 		}
-	}()
-	err = runMerge()
-	if err != nil {
-		return nil, fmt.Errorf("runMerge: %s", err)
 	}
 	return tombstones, nil
 }
